@@ -919,6 +919,9 @@ class EditableParentImpl(BaseParentImpl):
 
         from modelx.io.pandasio import PandasData
         self._check_ref_name(name)
+        if self.model.refmgr.has_spec(data):
+            # A value is associated with at most one IOSpec
+            raise ValueError("the data already has an IOSpec")
         spec = self.system.iomanager.new_spec(
             PandasData,
             io_group=self.model.interface,
